@@ -26,6 +26,11 @@ struct Cfg {
     /// 0 = every segment is a candidate; n = only segments with fewer than n records are
     max_records_selected: usize,
     max_per_compaction: usize,
+    /// number of consecutive compact() calls of one Compactor (the worker's loop); the oracle is applied to each
+    passes: usize,
+    /// with 2 passes: how many segments of the layout exist before the first pass (0 = all); the others are written
+    /// between the passes, as flushes that arrive while the compactor idles
+    split: usize,
 }
 
 impl Cfg {
@@ -39,14 +44,16 @@ impl Cfg {
         format!(
             "{clock} ttl{} select={} max{}",
             if self.ttl_ms == 0 { "0" } else { "1h" },
-            if self.max_records_selected == 0 { "all" } else if self.max_records_selected == TIGHT { "all(tight-target)" } else { "small-only" },
+            if self.max_records_selected == 0 { "all" } else if self.max_records_selected == TIGHT { "all(tight-target)" } else if self.max_records_selected == PAIR { "all(target-just-above-largest)" } else { "small-only" },
             self.max_per_compaction
-        )
+        ) + if self.passes > 1 { " passes2" } else { "" } + if self.split > 0 { " flush-between" } else { "" }
     }
 }
 
 /// `max_records_selected` value standing for "all segments below the target, target = 2 x the largest segment + 1"
 const TIGHT: usize = usize::MAX;
+/// "... target = the largest segment + 1": every segment is a candidate, the inputs of a pass together reach the target
+const PAIR: usize = usize::MAX - 1;
 
 fn compaction_config(c: &Cfg, layout: &Layout) -> CompactionConfig {
     let target = if c.max_records_selected == 0 {
@@ -55,6 +62,8 @@ fn compaction_config(c: &Cfg, layout: &Layout) -> CompactionConfig {
         // every segment is below the target, but only about two of them fit into it together
         let largest = layout.segments.iter().map(|s| segment_bytes(&s.iter().map(|u| u.delta()).collect::<Vec<_>>()).len()).max().unwrap_or(0);
         2 * largest + 1
+    } else if c.max_records_selected == PAIR {
+        layout.segments.iter().map(|s| segment_bytes(&s.iter().map(|u| u.delta()).collect::<Vec<_>>()).len()).max().unwrap_or(0) + 1
     } else {
         // between the size of the largest segment with < n records and the smallest with >= n records
         let mut below = 0usize;
@@ -75,14 +84,26 @@ fn compaction_config(c: &Cfg, layout: &Layout) -> CompactionConfig {
     }
 }
 
-fn run_compaction(store: &VObjStore, cfg: &Cfg, layout: &Layout) -> String {
+fn new_compactor(store: &VObjStore, cfg: &Cfg, layout: &Layout) -> Compactor<VObjStore, VerifTime> {
     let mm = ManifestManager::new(store.clone(), PREFIX);
-    let mut c = Compactor::with_time_source(Arc::new(store.clone()), PREFIX.to_string(), mm, compaction_config(cfg, layout), VerifTime::new(cfg.clock_ms));
+    Compactor::with_time_source(Arc::new(store.clone()), PREFIX.to_string(), mm, compaction_config(cfg, layout), VerifTime::new(cfg.clock_ms))
+}
+
+fn run_compaction(c: &mut Compactor<VObjStore, VerifTime>) -> String {
     match std::panic::catch_unwind(std::panic::AssertUnwindSafe(|| block_on(c.compact()))) {
         Ok(Ok(r)) => format!("compacted {} segments, {} tombstones removed", r.segments_removed.len(), r.tombstones_removed),
         Ok(Err(e)) => format!("error: {e}"),
         Err(p) => format!("PANIC {}", vh::panic_text(&p)),
     }
+}
+
+/// Keys held by a segment object (read with the real SegmentReader) and the object's real size.
+fn segment_facts(store: &VObjStore, key: &str) -> Option<(BTreeSet<String>, u64)> {
+    let img = store.image_now();
+    let bytes = img.get(key)?;
+    let r = redis_sim::streaming::segment::SegmentReader::open(bytes).ok()?;
+    let ds = r.read_all().ok()?;
+    Some((ds.iter().map(|d| d.key.clone()).collect(), bytes.len() as u64))
 }
 
 #[allow(dead_code)]
@@ -95,10 +116,34 @@ fn kinds_of(layout: &Layout, key: &str) -> String {
 
 /// One (layout, config) case. Err = (signature, detail).
 fn check_case(layout: &Layout, cfg: &Cfg) -> Result<bool, (String, String)> {
-    let store = build_store(layout);
-    let before = recover_fold(&store).map_err(|e| ("harness: recovery of the initial layout failed".to_string(), e))?;
+    let store = if cfg.split > 0 { build_store_prefix(layout, cfg.split) } else { build_store(layout) };
+    let mut compactor = new_compactor(&store, cfg, layout);
+    let mut any = false;
+    let mut history: Vec<String> = Vec::new();
+    for pass in 0..cfg.passes.max(1) {
+        if pass == 1 && cfg.split > 0 {
+            for seg in layout.segments.iter().skip(cfg.split) {
+                append_segment(&store, seg);
+            }
+            history.push(format!("{} segments flushed", layout.segments.len().saturating_sub(cfg.split)));
+        }
+        any |= check_pass(layout, cfg, &store, &mut compactor, pass, &mut history)?;
+    }
+    Ok(any)
+}
+
+/// One compact() call on the store in its current state: recovery before vs after.
+fn check_pass(layout: &Layout, cfg: &Cfg, store: &VObjStore, compactor: &mut Compactor<VObjStore, VerifTime>, pass: usize, history: &mut Vec<String>) -> Result<bool, (String, String)> {
+    let before = recover_fold(store).map_err(|e| (if pass == 0 { "harness: recovery of the initial layout failed".to_string() } else { "recovery-error-after-compaction pass2".to_string() }, e))?;
     let manifest_before = block_on(ManifestManager::new(store.clone(), PREFIX).load()).ok();
-    let outcome = run_compaction(&store, cfg, layout);
+    // what every listed segment really holds and how large it really is (the manifest's own figures are what the
+    // compactor selects by; the classification below must not take them on trust)
+    let facts_before: std::collections::BTreeMap<u64, (BTreeSet<String>, u64)> = manifest_before
+        .as_ref()
+        .map(|m| m.segments.iter().filter_map(|s| segment_facts(store, &s.key).map(|f| (s.id, f))).collect())
+        .unwrap_or_default();
+    let outcome = run_compaction(compactor);
+    history.push(outcome.clone());
     let manifest_after = block_on(ManifestManager::new(store.clone(), PREFIX).load()).ok();
     // Why was the container that holds an older update of `key` not part of the compaction? (for the tombstone
     // clause of the property: the known defect is a tombstone dropped although an older value survives in a
@@ -108,20 +153,22 @@ fn check_case(layout: &Layout, cfg: &Cfg) -> Result<bool, (String, String)> {
         let (Some(mb), Some(ma)) = (&manifest_before, &manifest_after) else { return "outside=unknown".into() };
         let target = compaction_config(cfg, layout).target_segment_size as u64;
         let kept: BTreeSet<u64> = ma.segments.iter().map(|s| s.id).collect();
-        let first_id = mb.segments.iter().map(|s| s.id).min().unwrap_or(0);
         let mut classes: BTreeSet<&'static str> = BTreeSet::new();
         if layout.checkpoint.as_ref().map(|c| c.iter().any(|u| u.key_name() == key)).unwrap_or(false) {
             classes.insert("checkpoint");
         }
         let mut small_rank = 0usize;
         for seg in &mb.segments {
-            let small = seg.size_bytes < target;
+            let (keys, real_size) = match facts_before.get(&seg.id) {
+                Some(f) => (Some(&f.0), f.1),
+                None => (None, seg.size_bytes),
+            };
+            let small = real_size < target;
             let rank = small_rank;
             if small {
                 small_rank += 1;
             }
-            let idx = (seg.id - first_id) as usize;
-            let holds = layout.segments.get(idx).map(|us| us.iter().any(|u| u.key_name() == key)).unwrap_or(false);
+            let holds = keys.map(|k| k.contains(key)).unwrap_or(false);
             if !holds || !kept.contains(&seg.id) {
                 continue; // not about this key, or it was compacted
             }
@@ -139,11 +186,11 @@ fn check_case(layout: &Layout, cfg: &Cfg) -> Result<bool, (String, String)> {
             format!("outside={}", classes.into_iter().collect::<Vec<_>>().join("+"))
         }
     };
-    let ctx = || format!("layout {} ; config {} ; compaction: {outcome}", layout.show(), cfg.label());
+    let ctx = || format!("layout {} ; config {} ; compaction: {}", layout.show(), cfg.label(), history.join(" ; then "));
     if outcome.starts_with("PANIC") {
         return Err((format!("compaction-panic {}", cfg.label()), ctx()));
     }
-    let after = match recover_fold(&store) {
+    let after = match recover_fold(store) {
         Ok(f) => f,
         Err(e) => return Err((format!("recovery-error-after-compaction cp={}", layout.checkpoint.is_some()), format!("{e}; {}", ctx()))),
     };
@@ -377,6 +424,8 @@ fn main() {
             ttl_ms: r["cfg"]["ttl_ms"].as_u64().unwrap(),
             max_records_selected: r["cfg"]["max_records_selected"].as_u64().unwrap() as usize,
             max_per_compaction: r["cfg"]["max_per_compaction"].as_u64().unwrap() as usize,
+            passes: r["cfg"]["passes"].as_u64().unwrap_or(1) as usize,
+            split: r["cfg"]["split"].as_u64().unwrap_or(0) as usize,
         };
         match check_case(&layout, &cfg) {
             Ok(_) => {
@@ -420,7 +469,17 @@ fn main() {
         let mut v = Vec::new();
         for (clock_ms, ttl_ms) in [(0, HOUR_MS), (HOUR_MS - 1, HOUR_MS), (HOUR_MS + 10, HOUR_MS), (EPOCH_MS, HOUR_MS), (0, 0), (EPOCH_MS, 0)] {
             for (max_records_selected, max_per_compaction) in [(0usize, 10usize), (2, 10), (0, 2), (TIGHT, 10)] {
-                v.push(Cfg { clock_ms, ttl_ms, max_records_selected, max_per_compaction });
+                v.push(Cfg { clock_ms, ttl_ms, max_records_selected, max_per_compaction, passes: 1, split: 0 });
+            }
+        }
+        // two consecutive passes of one Compactor (what the first pass leaves behind - its output segment and that
+        // segment's manifest entry - is the input of the second)
+        for (clock_ms, ttl_ms) in [(HOUR_MS + 10, HOUR_MS), (EPOCH_MS, HOUR_MS), (EPOCH_MS, 0)] {
+            for (max_records_selected, max_per_compaction) in [(PAIR, 2usize), (0usize, 2), (TIGHT, 10)] {
+                v.push(Cfg { clock_ms, ttl_ms, max_records_selected, max_per_compaction, passes: 2, split: 0 });
+                // flushes between the passes: the first 2 (3) segments before the first pass, the others after it
+                v.push(Cfg { clock_ms, ttl_ms, max_records_selected, max_per_compaction, passes: 2, split: 2 });
+                v.push(Cfg { clock_ms, ttl_ms, max_records_selected, max_per_compaction, passes: 2, split: 3 });
             }
         }
         v
@@ -432,6 +491,9 @@ fn main() {
         for layout in layouts_of(set) {
             layouts_n.fetch_add(1, Ordering::Relaxed);
             for cfg in &cfgs {
+                if cfg.split > 0 && layout.segments.len() <= cfg.split {
+                    continue; // nothing left to flush between the passes
+                }
                 cases.fetch_add(1, Ordering::Relaxed);
                 match check_case(&layout, cfg) {
                     Ok(c) => {
@@ -442,7 +504,7 @@ fn main() {
                     Err((sig, detail)) => rep.violation(
                         sig,
                         detail,
-                        json!({"layout": layout_json(&layout), "cfg": {"clock_ms": cfg.clock_ms, "ttl_ms": cfg.ttl_ms, "max_records_selected": cfg.max_records_selected, "max_per_compaction": cfg.max_per_compaction}}),
+                        json!({"layout": layout_json(&layout), "cfg": {"clock_ms": cfg.clock_ms, "ttl_ms": cfg.ttl_ms, "max_records_selected": cfg.max_records_selected, "max_per_compaction": cfg.max_per_compaction, "passes": cfg.passes, "split": cfg.split}}),
                     ),
                 }
             }
